@@ -184,7 +184,8 @@ def install(ctx, repo, probes):
         if snap["want"] is None:
             return
         prob = kind = None
-        if type(q) is not TP or q._truncated or not R.tp_valid(MODE, q):
+        if not isinstance(q, TP) or q._truncated or \
+                not R.tp_valid(MODE, q):
             kind, prob = "invalid", "result is not a valid full TimePoint"
         elif R.tp_offset_minutes(q) != snap["p_off"]:
             kind, prob = "offset", "result is not in p's UTC offset"
@@ -291,7 +292,7 @@ def _run_add(ctx, repo, case, t, p, spec, off):
         return                      # reported by the monitor
     ctx.extra["max_steps_seen"] = max(ctx.extra.get("max_steps_seen", 0),
                                       steps)
-    if type(q) is repo.TimePoint and not q._truncated:
+    if isinstance(q, repo.TimePoint) and not q._truncated:
         ctx.ev("idempotent")
         try:
             q2, _ = ctx.budget.run(limit, lambda: t + q)
